@@ -10,10 +10,18 @@ import lib, exact
 from lib import Report, qlit, qseq, natseq
 
 PID = 'C02'
-IMPORTS = 'QcField Sums Series Array'
+IMPORTS = 'QcField QciField Sums Series Array'
 DEFS = """
 Definition utpm_close (tol : Qc) (m : option (utpm K)) (shp : seq nat) (flat : seq Qc) : bool :=
   if m is Some z then (z.1 == shp) && Qc_allclose tol (flatU z) flat else false.
+(* complex coefficients: the same field-generic model run over the Gaussian rationals Q(i) (QciField.v) *)
+Notation KC := Qci_fieldType.
+Definition ci (a b : Qc) : Qci := MkQci a b.
+Definition qci_close (tol : Qc) (a b : Qci) : bool := Qc_close tol (re a) (re b) && Qc_close tol (im a) (im b).
+Fixpoint qci_allclose (tol : Qc) (a b : seq Qci) : bool :=
+  match a, b with [::], [::] => true | x :: a', y :: b' => qci_close tol x y && qci_allclose tol a' b' | _, _ => false end.
+Definition utpm_closeC (tol : Qc) (m : option (utpm KC)) (shp : seq nat) (flat : seq Qci) : bool :=
+  if m is Some z then (z.1 == shp) && qci_allclose tol (flatU z) flat else false.
 """
 F = Fraction
 
@@ -21,8 +29,8 @@ F = Fraction
 SHAPE_PAIRS = [((), ()), ((3,), (3,)), ((3,), ()), ((), (3,)), ((2, 3), (3,)), ((3,), (2, 3)), ((2, 1), (1, 3)), ((1, 3), (2, 1)),
                ((2, 3), (2, 3)), ((2, 3), (2, 1)), ((2, 1), (2, 3)), ((1,), (3,)), ((3,), (1,)), ((2, 2, 3), (2, 3)), ((2, 3), (2, 1, 3)),
                ((1, 2, 1), (3, 1, 2)), ((2,), (2, 2)), ((3,), (3, 3)), ((2, 2), (2, 2))]
-SCALAR_KINDS = ['pyint', 'pyfloat', 'pycomplex', 'np_float64', 'np_int64', 'np_complex128', 'np_float32']
-ARRAY_KINDS = ['arr0d', 'ndarray', 'ndarray_int', 'ndarray_complex']
+SCALAR_KINDS = ['pyint', 'pyfloat', 'pycomplex', 'np_float64', 'np_int64', 'np_complex128', 'np_float32', 'np_uint8', 'np_uint32', 'np_int8', 'pybool']
+ARRAY_KINDS = ['arr0d', 'ndarray', 'ndarray_int', 'ndarray_complex', 'ndarray_uint8', 'ndarray_bool']
 OPS = ['add', 'sub', 'mul', 'div']
 PY = {'add': '+', 'sub': '-', 'mul': '*', 'div': '/'}
 
@@ -74,6 +82,14 @@ def gen_other(rng, kind, shp, divisor):
         return numpy.int64(val(integer=True))
     if kind == 'np_complex128':
         return numpy.complex128(val(cx=True))
+    if kind in ('np_uint8', 'np_uint32', 'np_int8'):
+        return getattr(numpy, kind[3:])(abs(val(integer=True)))          # unsigned / narrow integer constants: values, not bit patterns
+    if kind == 'pybool':
+        return True
+    if kind == 'ndarray_uint8':
+        return numpy.array([abs(val(integer=True)) for _ in range(int(numpy.prod(shp, dtype=int)))], dtype=numpy.uint8).reshape(shp)
+    if kind == 'ndarray_bool':
+        return numpy.ones(shp, dtype=bool)
     if kind == 'arr0d':
         return numpy.array(val())
     if kind == 'ndarray':
@@ -111,7 +127,9 @@ def dec(e):
         return complex(e['re'], e['im'])
     if t.startswith('complex'):
         return getattr(numpy, t)(complex(e['re'], e['im']))
-    if t.startswith('int'):
+    if t == 'bool':
+        return bool(e['re'])
+    if t.startswith('int') or t.startswith('uint'):
         return getattr(numpy, t)(int(e['re']))
     return getattr(numpy, t)(e['re'])
 
@@ -242,6 +260,51 @@ def utpm_lit(data):
     return '(%s, [:: %s])' % (natseq(shp), '; '.join(dirs))
 
 
+def clit(v):
+    v = complex(v)
+    return '(ci %s %s)' % (qlit(lib.frac(v.real)), qlit(lib.frac(v.imag)))
+
+
+def cseq(vs):
+    return '[:: ' + '; '.join(clit(v) for v in vs) + ']' if len(vs) else '[::]'
+
+
+def utpm_lit_c(data):
+    """Coq literal of type utpm KC from a (D,P)+shape real or complex array"""
+    data = numpy.asarray(data, dtype=complex)
+    D, P = data.shape[:2]
+    shp = data.shape[2:]
+    n = int(numpy.prod(shp, dtype=int))
+    fl = data.reshape((D, P, n))
+    dirs = []
+    for p in range(P):
+        dirs.append('[:: ' + '; '.join(cseq([fl[d, p, e] for d in range(D)]) for e in range(n)) + ']' if n else '[::]')
+    return '((%s, [:: %s]) : utpm KC)' % (natseq(shp), '; '.join(dirs))
+
+
+def coq_term_c(case, impl, tol):
+    """the same model term over the Gaussian rationals, for cases with a complex operand"""
+    xd = dec(case['x'])
+    D, P = xd.shape[:2]
+    X = utpm_lit_c(xd)
+    if case['alias'] == 'same':
+        Y = X
+    elif case['alias'] == 'view':
+        Y = utpm_lit_c(xd[:, :, ::-1] if xd.ndim == 3 else xd.transpose((0, 1, 3, 2)))
+    elif case['other_kind'] == 'utpm':
+        Y = utpm_lit_c(dec(case['other']))
+    else:
+        o = numpy.asarray(dec(case['other']), dtype=complex)
+        Y = '(liftC %d %d (%s, %s) : utpm KC)' % (D, P, natseq(o.shape), cseq(list(o.reshape(-1))))
+    kern = {'add': 'addS', 'sub': 'subS', 'mul': 'mulS', 'div': 'divS'}[case['op']]
+    a, b = (Y, X) if case['form'] == 'reflected' else (X, Y)
+    Dz, Pz = impl.shape[:2]
+    n = int(numpy.prod(impl.shape[2:], dtype=int))
+    fl = numpy.asarray(impl, dtype=complex).reshape((Dz, Pz, n))
+    flat = [fl[d, p, e] for p in range(Pz) for e in range(n) for d in range(Dz)]
+    return '(utpm_closeC %s (binopU (@%s KC) %s %s) %s %s)' % (qlit(tol), kern, a, b, natseq(impl.shape[2:]), cseq(flat))
+
+
 def coq_term(case, impl, tol):
     xd = dec(case['x'])
     D, P = xd.shape[:2]
@@ -275,15 +338,23 @@ def classify(case):
 
 # ---------------------------------------------------------------- powers
 def gen_pow_case(rng, tier):
-    kind = rng.choice(['scalar_base', 'poly_exponent', 'complex_exponent', 'np_exponent'])
+    kind = rng.choice(['scalar_base', 'poly_exponent', 'complex_exponent', 'np_exponent', 'int_exponent', 'int_exponent'])
     D = rng.choice([1, 2, 3, 4, 5])
     P = rng.choice([1, 2])
     shp = rng.choice([(), (2,), (2, 2)])
     x = numpy.zeros((D, P) + shp)
     for idx in numpy.ndindex(*x.shape):
         x[idx] = float(F(rng.randint(4, 24), 8)) if idx[0] == 0 else float(dy(rng))
+    if kind == 'int_exponent':
+        # Python / NumPy integer exponents 0..8: the exact r-fold Cauchy product, also where the constant coefficient is zero or negative
+        for idx in numpy.ndindex(*x.shape):
+            x[idx] = float(dy(rng))
+            if idx[0] == 0 and rng.random() < 0.35:
+                x[idx] = 0.0
     case = dict(op='pow', kind=kind, D=D, P=P, x=enc(x))
-    if kind == 'scalar_base':
+    if kind == 'int_exponent':
+        case['r'] = enc(rng.choice([0, 1, 2, 3, 4, 5, 6, 7, 8, numpy.int64(5), numpy.int64(6), numpy.int32(7)]))
+    elif kind == 'scalar_base':
         case['r'] = enc(rng.choice([0.5, 1.5, 2.0, 3.0, numpy.float64(2.5), 2, numpy.int64(3)]))
     elif kind == 'poly_exponent':
         y = numpy.zeros((D, P) + shp)
@@ -337,6 +408,24 @@ def judge_pow(rep, algopy, cases):
         if zd.shape != xd.shape:
             rep.violation(key + ':shape', 'power (%s): result shape %s for operand shape %s' % (case['kind'], zd.shape, xd.shape),
                           dict(kind='value', case=case, impl=enc(zd)))
+            continue
+        if case['kind'] == 'int_exponent':
+            # exact: dyadic inputs, products of small dyadics stay exact in float64 for these sizes
+            fxx = xd.reshape((D, P, n)); fzz = zd.reshape((D, P, n)); bad_int = None
+            for p in range(P):
+                for e in range(n):
+                    xs = [lib.frac(fxx[d, p, e]) for d in range(D)]
+                    acc = [F(1)] + [F(0)] * (D - 1)
+                    for _k in range(int(r)):
+                        acc = [sum(acc[c] * xs[d - c] for c in range(d + 1)) for d in range(D)]
+                    got = [fzz[d, p, e] for d in range(D)]
+                    if not all(numpy.isfinite(g) and abs(lib.frac(g) - a) <= F(1, 2 ** 40) * (1 + abs(a)) for g, a in zip(got, acc)):
+                        bad_int = (p, e, [float(a) for a in acc], [float(g) for g in got]); break
+                if bad_int:
+                    break
+            if bad_int:
+                rep.violation(key + ':' + type(r).__name__, 'x ** %r (integer exponent): coefficients %s, the %d-fold Cauchy product is %s (direction %d, element %d)'
+                              % (r, bad_int[3], int(r), bad_int[2], bad_int[0], bad_int[1]), dict(kind='value', case=case, impl=enc(zd), python='x ** %r' % (r,)))
             continue
         if case['kind'] in ('complex_exponent', 'np_exponent'):
             res = pow_ode_residual(xd, zd, complex(r) if case['kind'] == 'complex_exponent' else float(r))
@@ -432,6 +521,12 @@ def judge(rep, algopy, cases):
         if is_real(case) and not numpy.iscomplexobj(impl):
             terms.append(coq_term(case, impl, tol))
             owners.append(case)
+            rep.count('coq model carrier', 'Qc')
+        elif case.get('other', {}).get('dtype', '') != 'float32' and numpy.iscomplexobj(impl):
+            # complex operands: the same model over the Gaussian rationals
+            terms.append(coq_term_c(case, impl, tol))
+            owners.append(case)
+            rep.count('coq model carrier', 'Q(i)')
     verdicts, logs = lib.eval_bool_cases(PID, IMPORTS, DEFS, terms, per_file=60)
     bad = 0
     for case, v, t in zip(owners, verdicts, terms):
